@@ -371,6 +371,12 @@ func doRun(j *sup.Job, res *sup.Result) {
 				rr.Premature = true
 			}
 		}
+		// cancelled although a communication was still enabled (a message in a buffer whose
+		// receiver is parked, a sender and a receiver parked on one channel, an unserved control
+		// message): the receiving goroutine had not been scheduled for 50 ms
+		if ok, _ := theSink.stable(rs); !ok {
+			rr.Premature = true
+		}
 	} else {
 		chans := re.CreateChannelForEachProcess(procs)
 		for _, p := range procs {
